@@ -12,6 +12,7 @@ RULE = ("a concrete valid program is generated online; every numeric argument po
         "same calls are issued directly with reference-evaluated literals; snapshots must agree (timeline, samples 1e-9, "
         "phases), the template must be unchanged by build, and builds v1, v2, v1 must be independent and reproducible. "
         "non-trivial = distinct case with >= 2 variables, >= 1 composite expression and >= 2 builds compared")
+RULE += " Later additions: the sequence built first is read again (fresh samples) after each later build of the template."
 ASSUMPTIONS = ["reference evaluation of expressions uses plain Python floats (vmon.objs.ref_eval)",
                "programs contain no deliberately invalid calls; a case tainted by a partial-effect raise is set aside (C09)"]
 TIERS = {"quick": dict(cases=1500, shards=8, case_timeout=180, shard_timeout=900),
